@@ -6,7 +6,7 @@ Declarations (answer `ok`): `variant copy|alias`, `specs N`, `arrays N`, `key <i
 Memo ops: `call K` → `h<N> clean|dirty c.i,…`, `read H` → `clean|dirty …` (relative to the value handed out plus the caller's own writes through H), `mutate H C I` → `ok`,
 `scribble` → `ok`.  World ops: `new S`, `qnew kind p`, `copy O`, `clone Q` → `o<N>`; `next O n`,
 `pop Q n` → the lineage name of the chunk; `reset O`, `append Q G t d`, `appendw Q W t d`,
-`seed x`, `rand n` → `ok`. -/
+`seed x`, `rand n`, `wwrite W` → `ok`. -/
 namespace Psi.Driver.Cache
 open Psi.Driver Psi.Cache
 
@@ -55,7 +55,7 @@ def showLin (l : Lin) : String :=
 
 def showEv : Ev → String
   | .app src t d => "a(" ++ showLin src ++ s!")x{t}d{d}"
-  | .appw w t d => s!"w{w}x{t}d{d}"
+  | .appw w t d p => s!"w{w}" ++ (if p then "!" else "") ++ s!"x{t}d{d}"
   | .pop n => s!"p{n}"
 
 def showOut : Out → String
@@ -78,6 +78,7 @@ def parseWOp (ws : List String) : Option WOp :=
   | ["pop", q, n] => do pure (.pop (← parseNat? q) (← parseNat? n))
   | ["seed", x] => do pure (.seed (← parseNat? x))
   | ["rand", n] => do pure (.rand (← parseNat? n))
+  | ["wwrite", a] => do pure (.wwrite (← parseNat? a))
   | _ => none
 
 def step (s : DState) (ws : List String) : DState × String :=
